@@ -338,7 +338,6 @@ func c19HiddenClientConfig(target int, second bool) ClientConfig {
 	return cc
 }
 
-
 // ---------------------------------------------------------------------------
 // (a) statelessness under client hellos
 
@@ -586,7 +585,7 @@ type c19CookieCase struct {
 	Cookie int  `json:"cookie"` // 0 intact; 1 xor Mask at cookie byte Off; 2 cookie of another exchange (other address, other key); 3 cookie of another exchange from A under another key; 4 cookie minted for K at another address (harness-driven base only)
 	Off    int  `json:"off"`
 	Mask   int  `json:"mask"`
-	DelayS int  `json:"delayS"` // virtual seconds between the ServerHello and the presentation (the cookie key rotates every 120 s)
+	DelayS int  `json:"delayS"`          // virtual seconds between the ServerHello and the presentation (the cookie key rotates every 120 s)
 	Forge  bool `json:"forge,omitempty"` // harness-driven base: build even an unaltered acknowledgement with the forging helper (self-test of the helper)
 }
 
@@ -944,15 +943,15 @@ const c19MinHiddenLen = HeaderLen + KemKeyLen + KemCtLen + MacLen + TimestampLen
 var c19LastReqLen atomic.Int64 // length of the last honest hidden request that was answered (self-test -> generators)
 
 type c19HiddenCase struct {
-	Certs   int    `json:"certs"`   // certificates of the hidden server: 1 = ServerConfig(true); 2, 3 = GetCertificate/GetCertList closures
-	Target  int    `json:"target"`  // certificate whose KEM key the case's honest request uses
-	Live    bool   `json:"live"`    // a hidden session (client vCli2Addr) is established first and stays open during the probe
-	Class   string `json:"class"`   // honest | delayed | replayed-late | future | wrong-kem | altered | junk | discoverable | own-cookie-ack | session-unknown | session-live
-	Src     int    `json:"src"`     // source of injected datagrams: 0 an address the server never saw, 1 the live client's address, 2 the requesting client's address
-	N       int    `json:"n"`       // junk / session classes: number of datagrams
-	Type    int    `json:"type"`    // junk / session classes: first byte (-1: from the tape); discoverable: message index (-1: all five in order)
-	Len     int    `json:"len"`     // junk / session classes: datagram length; altered (truncate): new length
-	Kind    int    `json:"kind"`    // altered: 0 xor, 1 truncate, 2 extend by Len bytes; junk: 1 = hidden-request-shaped (version and length field fit); session-live: 0 junk body, 1 replay of an authentic datagram, 2 altered authentic datagram
+	Certs   int    `json:"certs"`  // certificates of the hidden server: 1 = ServerConfig(true); 2, 3 = GetCertificate/GetCertList closures
+	Target  int    `json:"target"` // certificate whose KEM key the case's honest request uses
+	Live    bool   `json:"live"`   // a hidden session (client vCli2Addr) is established first and stays open during the probe
+	Class   string `json:"class"`  // honest | delayed | replayed-late | future | wrong-kem | altered | junk | discoverable | own-cookie-ack | session-unknown | session-live
+	Src     int    `json:"src"`    // source of injected datagrams: 0 an address the server never saw, 1 the live client's address, 2 the requesting client's address
+	N       int    `json:"n"`      // junk / session classes: number of datagrams
+	Type    int    `json:"type"`   // junk / session classes: first byte (-1: from the tape); discoverable: message index (-1: all five in order)
+	Len     int    `json:"len"`    // junk / session classes: datagram length; altered (truncate): new length
+	Kind    int    `json:"kind"`   // altered: 0 xor, 1 truncate, 2 extend by Len bytes; junk: 1 = hidden-request-shaped (version and length field fit); session-live: 0 junk body, 1 replay of an authentic datagram, 2 altered authentic datagram
 	Off     int    `json:"off"`
 	Mask    int    `json:"mask"`
 	DelayMs int64  `json:"delayMs"` // delayed / replayed-late: hold time; future: how far the requesting client's clock is ahead
